@@ -583,6 +583,63 @@ def e2e_one(run: Run, h: int, r: int, seed: int, do_fuzz: bool) -> list[str]:
 # replay
 # ------------------------------------------------------------------------------------------------
 
+TWIN_SPECS = [
+    # (spec, word whose derivation satisfies the bounds, word from which the violating same-shaped twin is built)
+    ('<start> ::= <n> <item>{int(<n>)} <item>*\n<n> ::= "1" | "2" | "3"\n<item> ::= "x"\n', "1xx", "2xx"),
+    ('<start> ::= <n> <a>{int(<n>)} <a>?\n<n> ::= "1" | "2"\n<a> ::= "a"\n', "1aa", "2aa"),
+    ('<start> ::= <n> <item>{int(<n>)} <rest>\n<rest> ::= <item>*\n<n> ::= "1" | "2"\n<item> ::= "x" | "y"\n'
+     'where str(<start>) != "zz"\n', "1xy", "2xy"),
+]
+
+
+def tag_twin_probe(run: Run) -> list:
+    """evaluate (on ONE real Evaluator) the twin `replace(<n> of `big` := <n> of `good`)` - same text and shape as the
+    parse of `good`, but carrying the origin tags of `big`, so its repetition bound is violated - and then the parse of
+    `good`, which satisfies everything and is seen for the first time: it must be yielded."""
+    import logging
+    from fandango import Fandango
+    from fandango.evolution.evaluation import Evaluator
+    out = []
+    for spec, good, big in TWIN_SPECS:
+        try:
+            f = Fandango(spec, use_stdlib=False, use_cache=False, logging_level=logging.CRITICAL)
+            ev = Evaluator(f.grammar, list(f.constraints), 1.0, 5, 1.0)
+            t_good, t_big = f.grammar.parse(good), f.grammar.parse(big)
+            if t_good is None or t_big is None:
+                run.count("twin:spec-does-not-parse")
+                continue
+            twin = t_big.replace(f.grammar, t_big.children[0], t_good.children[0])
+
+            def evaluate(t):
+                g = ev.evaluate_individual(t)
+                ys = []
+                try:
+                    while True:
+                        ys.append(next(g))
+                except StopIteration as stop:
+                    return ys, stop.value[0]
+            ys1, fit1 = evaluate(twin)
+            sat_twin = all_success(ev, twin)
+            sat_good = all_success(ev, t_good)
+            ys2, fit2 = evaluate(t_good)
+        except Exception as e:  # noqa: BLE001
+            run.count("twin:raised:" + type(e).__name__)
+            continue
+        run.case(["twin", spec, good], True)
+        if str(twin) != str(t_good) or sat_good is not True:
+            run.count("twin:not-a-twin")
+            continue
+        run.count("twin:probes")
+        run.count("twin:first-tree-violates" if sat_twin is False else "twin:first-tree-satisfies")
+        if not any(y is t_good for y in ys2):
+            out.append((f"C03/first-seen-not-yielded-after-twin: the parse of {good!r} satisfies every hard constraint and "
+                        f"repetition bound and is evaluated for the first time, but it is not yielded (fitness {fit2!r}) "
+                        f"after a structurally equal tree with the origin tags of {big!r} (fitness {fit1!r}, bounds "
+                        f"{'violated' if sat_twin is False else 'satisfied'}) was evaluated by the same Evaluator",
+                        {"kind": "twin", "spec": spec, "good": good, "big": big}))
+    return out
+
+
 def replay(path: str) -> int:
     use_repo()
     rp = json.load(open(path))
@@ -608,6 +665,8 @@ def replay(path: str) -> int:
             bad += e2e_one(Run(PID, "quick", "proof"), rp["h"], rp["r"], 0, True)
     elif kind == "e2e":
         bad += e2e_one(Run(PID, "quick", "proof"), rp["h"], rp["r"], rp.get("fuzz_seed", 0), True)
+    elif kind == "twin":
+        bad += [m for m, _ in tag_twin_probe(Run(PID, "quick", "proof"))]
     elif kind == "unproved":
         gen = translate_fitness.regenerate()
         lean = lean_check("Props.C03", ["drv_fit"])
@@ -720,6 +779,10 @@ def main(tier: str) -> int:
         for msg in e2e_one(run, h, r, run.seed * 1000 + i, True):
             run.report(msg.split(":")[0], msg.split(": ", 1)[1], {"kind": "e2e", "h": h, "r": r, "fuzz_seed": run.seed * 1000 + i,
                                              "spec": e2e_spec(h, r)})
+    # ---- 3c. "the first time it is seen", with a history: a tree that satisfies everything is evaluated AFTER a
+    # structurally equal tree (same symbols and shape, other origin tags) that violates a repetition bound
+    for msg, rp in tag_twin_probe(run):
+        run.report(msg.split(":")[0], msg.split(": ", 1)[1], rp)
     if run.counters.get("e2e:satisfied_trees", 0) < len(e2e_pairs):
         raise MachineryError("end-to-end: fewer satisfied trees were observed than specs were run (vacuous)")
 
